@@ -52,6 +52,10 @@ def run_one(prop, case, idx):
         if v is None:
             raise
         r = {"violations": [v], "counters": {"crashes": 1}}
+    except Warning:
+        # warnings-as-errors shard: the library warned and nothing in this workload handles a warning raised as an error
+        # (only the checks that judge refusals do): the case is abandoned, not judged
+        r = {"violations": [], "counters": {"cases_abandoned_on_a_library_warning": 1}}
     except Exception as e:
         v = crash_violation(e)
         if v is None:
